@@ -31,6 +31,20 @@ func c13Arg(t *rapid.T) ME {
 		return ME{K: "str", S: pick(t, "as", []string{"", "plain", "<b>&'\"", "a b", "é"})}
 	case 2:
 		return ME{K: pick(t, "ab", []string{"true", "false"})}
+	case 3:
+		// a real expression (arguments and defaults are expressions, not just names and literals)
+		l, r := ME{K: "name", N: "ci"}, ME{K: "int", I: drawInt(t, 0, 9, "er")}
+		switch pick(t, "ek", []string{"sub", "not", "eq", "lt"}) {
+		case "sub":
+			return ME{K: "sub", L: &l, R: &r}
+		case "not":
+			// (of a boolean: the negation of a number prints 0 / 1 in pongo2, False / True elsewhere - not fixed)
+			inner := ME{K: "eq", L: &l, R: &r}
+			return ME{K: "not", L: &inner}
+		case "eq":
+			return ME{K: "eq", L: &l, R: &r}
+		}
+		return ME{K: "lt", L: &r, R: &l}
 	default:
 		return ME{K: "name", N: pick(t, "an", []string{"cs", "ci", "cl", "cnil", "undefined", "later", "cesc"})}
 	}
